@@ -130,20 +130,29 @@ def h_magnitude(f, N, mode):
     return body
 
 
-def h_dense(f, ns, mode):
+def h_dense(f, ns, mode, grids=None, each=False):
+    """grids: concrete time-stamps per variable (values stay symbolic); each: online, one sample of every variable per update() call"""
     f = T(f)
     vs = sorted(variables(f))
 
     def body(env):
         A = env.A
         s = ct.make_spec('combined', 'out = ' + text(f), vs)
-        sigs = {v: ct.signal(env, v, n, 'zero') for v, n in zip(vs, ns)}
+        sigs = {v: ct.signal(env, v, n, 'zero', grid=(grids[k] if grids else None)) for k, (v, n) in enumerate(zip(vs, ns))}
         args = [[v, [list(p) for p in sigs[v]]] for v in vs]
-        out = s.evaluate(*args) if mode == 'offline' else s.update(*args)
+        if mode == 'offline':
+            out = s.evaluate(*args)
+        elif not each:
+            out = s.update(*args)
+        else:
+            out = []
+            for i in range(max(ns)):
+                out += s.update(*[[v, [list(sigs[v][i])] if i < len(sigs[v]) else []] for v in vs])
         out = [list(p) for p in out]
         env.observe('out', out)
         if not out:
-            return [('nonempty', A.false)]
+            # fed sample by sample, a monitor whose operands overlap too little may have nothing to report yet
+            return [('nonempty', A.bool(each))]
         S, E = refct.domain(A, [sigs[v] for v in vs])
         tau = env.real('tau')
         env.assume(A.And(A.le(out[0][0], tau), A.le(S, tau), A.le(tau, E)))
@@ -151,7 +160,14 @@ def h_dense(f, ns, mode):
             env.assume(A.le(tau, out[-1][0]))
         r = refct.val(A, out, tau)
         b = refct.sat_expr(A, f, sigs, tau)
-        return sound(A, 'dense', r, b)
+        res = sound(A, 'dense', r, b)
+        if each:
+            # every returned sample, taken by itself, is sound for its own instant
+            for i, smp in enumerate(out):
+                inside = A.And(A.le(S, smp[0]), A.le(smp[0], E))
+                bi = refct.sat_expr(A, f, sigs, smp[0])
+                res += [(l, A.Or(A.Not(inside), c)) for l, c in sound(A, 'dense-sample@%d' % i, smp[1], bi)]
+        return res
     return body
 
 
@@ -272,6 +288,15 @@ def obligations(tier, rng):
               ('not', ('leq', X, Y))]:
         for mode in ('offline', 'online'):
             out.append(ob('C07', 'dense', 'dense/%s/%s/n=2,2' % (mode, text(f)), f=f, ns=[2, 2], mode=mode, max_paths=20000, wall=600))
+    # dense online, fed one sample per update(), traces that do not start at 0 and operands that come up at different instants
+    GX0, GY0 = ('geq', X, ('const', 0.0)), ('geq', Y, ('const', 0.0))
+    for f in [('and', GX0, ('once_t', GY0, 2, 3)), ('or', ('historically_t', GY0, 1, 2), ('lt', X, C)), ('implies', GX0, ('once_t', GY0, 1, 1)),
+              ('and', ('once', GX0), ('once_t', GY0, 2, 3)), ('and', ('once_t', GY0, 2, 3), GX0), ('and', GX0, GY0), ('or', ('not', GX0), ('once', GY0))]:
+        for gi, (gx, gy) in enumerate([([1, 2, 3, 4, 5], [1, 2, 3, 4, 5]), ([0, 1, 2, 3, 4], [1, 2, 3, 4, 5]), ([2, 3, 4, 5, 6], [0, 1, 2, 3, 4])]):
+            if quick and (gi == 2 or f[0] != 'and'):
+                continue
+            n = 4 if quick else 5
+            out.append(ob('C07', 'dense', 'dense/online-each/%s/grid%d' % (text(f), gi), f=f, ns=[n, n], mode='online', grids=[gx[:n], gy[:n]], each=True, max_paths=40000, wall=900))
     seen = set()
     res_ = [o for o in out if not (o['oid'] in seen or seen.add(o['oid']))]
     from .. import core as _core
